@@ -4,6 +4,7 @@ from ..cfront import AnalysisError
 from ..ir import fmt, walk_stmts, walk_expr, stmt_exprs, dotted, sub_blocks, orient
 from ..model import calls_in
 from ..symexec import assigned_vars
+from .. import sym
 from .iterspace import paths_increments
 
 INF = float('inf')
@@ -798,42 +799,132 @@ def rule_kmeans(ctx, m):
 
 
 # ================================================================================================= C17
-def rule_alignment_tables(ctx, m):
-    pm, f = _func(m, 'dtaidistance.dp', 'dp')
-    # arrows recorded per predecessor
-    env = {}
-    for s in walk_stmts(f.body):
-        if s.k == 'assign' and s.target[0] == 'var':
-            env[s.target[1]] = s.value
-    arrows = {}
-    # the score matrix: the array whose cell receives the minimum over the three candidates
-    score_arr = None
-    for s in walk_stmts(f.body):
-        if s.k == 'assign' and s.target[0] == 'idx' and s.target[1][0] == 'var' and s.value[0] in ('min', 'call') and \
-                (s.value[0] == 'min' or dotted(s.value[1]) == 'min') and len(s.value[1] if s.value[0] == 'min' else s.value[2]) == 3:
-            score_arr = s.target[1]
-    if score_arr is None:
+class _Undecidable(Exception):
+    pass
+
+
+def _weak_orders(n):
+    """All weak orderings of n items as rank tuples (13 for n = 3)."""
+    from itertools import product
+    seen = set()
+    for t in product(range(n), repeat=n):
+        ranks = sorted(set(t))
+        norm = tuple(ranks.index(x) for x in t)
+        seen.add(norm)
+    return sorted(seen)
+
+
+def dp_arrows(m):
+    """Which traceback arrow dp.dp records for which predecessor, decided on order types: the three candidate scores are touched only through
+    comparisons, so the 13 weak orderings of (left, above, diagonal) cover every input.  For each ordering the recorded arrow set is computed by abstract
+    evaluation of the arrow stores; arrow X belongs to candidate k when X is recorded exactly in the orderings where k attains the minimum.
+    -> ({arrow name: (drow, dcol)}, problems)"""
+    from . import kern2d
+    from .. import kernels as _k
+    from ..canon import canon_expr
+    from ..symexec import norm_minmax
+    F = kern2d.load(m, 'dtaidistance.dp', 'dp', consts={'window': ('var', 'W')}, nonnull={'W'})
+    p, node, value = kern2d.preds(F, F.store, F.amap)
+    if p is None:
         raise AnalysisError('unrecognised shape: dp.dp stores no minimum over three candidates')
-    for s in walk_stmts(f.body):
-        if s.k == 'if' and s.cond[0] == 'bin' and s.cond[1] == '==':
-            lhs, rhs = s.cond[2], s.cond[3]
-            # the cell just stored (directly or through a local holding it) compared with one candidate
-            def cell(e):
-                if e[0] == 'var' and e[1] in env and env[e[1]][0] == 'idx':
-                    e = env[e[1]]
-                return e if e[0] == 'idx' and e[1] == score_arr else None
-            if cell(lhs) is None and cell(rhs) is not None and lhs[0] == 'var':
-                lhs, rhs = rhs, lhs
-            if cell(lhs) is None or rhs[0] != 'var':
-                continue
-            src = env.get(rhs[1])
-            tgt = cell(lhs)[2]
-            rd = [x for x in walk_expr(src) if x[0] == 'idx' and x[1] == score_arr] if src else []
-            for t in s.then:
-                if t.k == 'assign' and t.target[0] == 'idx' and t.target[1][0] == 'var' and t.target[1] != score_arr and t.d.get('aug') == '+':
-                    nm = [x[1][2] for x in walk_expr(t.value) if x[0] == 'attr' and x[2] == 'value' and x[1][0] == 'attr' and x[1][1] == ('var', 'Direction')]
-                    if nm and len(rd) == 1:
-                        arrows[nm[0]] = _offset2(rd[0][2], tgt, env)
+    cands = list(node[1])
+    offs = []
+    R, Cc = [_k.term(x, F.amap) for x in F.store[2][2][1]]
+    for a in cands:
+        rd = [x for x in walk_expr(a) if x[0] == 'idx' and x[1] == ('var', F.arr)][0]
+        r, c = [_k.term(x, F.amap) for x in rd[2][1]]
+        offs.append((sym_sub(r, R), sym_sub(c, Cc)))
+    ckeys = [canon_expr(norm_minmax(a)) for a in cands]
+    cell = F.store[2]
+    stored = norm_minmax(F.store[3])
+
+    def num(e, val):
+        e = norm_minmax(e) if e[0] == 'cond' else e
+        ce = canon_expr(e)
+        for k_, key in enumerate(ckeys):
+            if ce == key:
+                return val[k_]
+        if e == cell:
+            return num(stored, val)
+        if e[0] in ('min', 'max'):
+            xs = [num(x, val) for x in e[1]]
+            return min(xs) if e[0] == 'min' else max(xs)
+        if e[0] == 'call' and dotted(e[1]) in ('min', 'max'):
+            xs = [num(x, val) for x in e[2]]
+            return min(xs) if dotted(e[1]) == 'min' else max(xs)
+        if e[0] == 'cond':
+            return num(e[2], val) if truth(e[1], val) else num(e[3], val)
+        raise _Undecidable(fmt(e)[:60])
+
+    def truth(c, val):
+        if c[0] == 'un' and c[1] == 'not':
+            return not truth(c[2], val)
+        if c[0] == 'bin' and c[1] in ('and', 'or'):
+            a_, b_ = truth(c[2], val), truth(c[3], val)
+            return (a_ and b_) if c[1] == 'and' else (a_ or b_)
+        if c[0] == 'bin' and c[1] in ('<', '<=', '>', '>=', '==', '!='):
+            a_, b_ = num(c[2], val), num(c[3], val)
+            return {'<': a_ < b_, '<=': a_ <= b_, '>': a_ > b_, '>=': a_ >= b_, '==': a_ == b_, '!=': a_ != b_}[c[1]]
+        raise _Undecidable(fmt(c)[:60])
+
+    def arrows_of(e, val, cur, parr, pidx):
+        if e[0] == 'idx' and e[1] == parr and e[2] == pidx:
+            return cur
+        if e[0] == 'str':
+            if e[1] != '':
+                raise _Undecidable('string literal %r' % e[1])
+            return frozenset()
+        if e[0] == 'attr' and e[2] == 'value' and e[1][0] == 'attr' and e[1][1] == ('var', 'Direction'):
+            return frozenset([e[1][2]])
+        if e[0] == 'bin' and e[1] == '+':
+            return arrows_of(e[2], val, cur, parr, pidx) | arrows_of(e[3], val, cur, parr, pidx)
+        if e[0] == 'cond':
+            return arrows_of(e[2] if truth(e[1], val) else e[3], val, cur, parr, pidx)
+        raise _Undecidable(fmt(e)[:60])
+    astores = [e for e in F.col.events if e[0] == 'store' and e[2][0] == 'idx' and e[2][1] != ('var', F.arr) and e[2][2] == cell[2] and
+               any(x[0] == 'attr' and x[1] == ('var', 'Direction') for x in walk_expr(e[3]))]
+    if not astores:
+        raise AnalysisError('unrecognised shape: dp.dp records no traceback arrows next to the score')
+    recorded = {}
+    for o in _weak_orders(3):
+        cur = frozenset()
+        for ev in astores:
+            try:
+                taken = True
+                for c in ev[1]:
+                    try:
+                        taken = taken and truth(c, o)
+                    except _Undecidable:
+                        pass            # a condition that does not compare candidate scores (max_step / max_dist guards): the path on which the store happens
+                if taken:
+                    cur = arrows_of(ev[3], o, cur, ev[2][1], ev[2][2])
+            except _Undecidable as ex:
+                raise AnalysisError('unrecognised shape: arrow store of dp.dp: %s' % ex)
+        recorded[o] = cur
+    names = sorted(set().union(*recorded.values()))
+    table, problems = {}, []
+    for X in names:
+        ks = [k_ for k_ in range(3) if all((X in recorded[o]) == (o[k_] == min(o)) for o in recorded)]
+        if len(ks) == 1 and sym.is_const(offs[ks[0]][0]) and sym.is_const(offs[ks[0]][1]):
+            table[X] = (offs[ks[0]][0][2], offs[ks[0]][1][2])
+        else:
+            bad = next(o for o in recorded if not any((X in recorded[o]) == (o[k_] == min(o)) for k_ in range(3)) or True)
+            problems.append('arrow %s is not recorded exactly when one predecessor attains the minimum (e.g. for the ordering %s of the candidates %s the arrows are %s)'
+                            % (X, bad, [fmt(c_)[-28:] for c_ in cands], sorted(recorded[bad])))
+    return table, problems, F
+
+
+def sym_sub(a, b):
+    from ..sym import sub
+    return sub(a, b)
+
+
+def rule_alignment_tables(ctx, m):
+    from .. import sym as _sym
+    arrows, problems, F0 = dp_arrows(m)
+    pm = m.py('dtaidistance.dp')
+    for pr in problems:
+        ctx.violation('R-TAB', pm.path, 'dp', 'arrow recording', pr, F0.store[4].line)
     pm2, g = _func(m, 'dtaidistance.alignment', 'best_alignment')
     ops = chars = None
     ops_name = chars_name = None
@@ -1023,8 +1114,14 @@ def rule_contiguity(ctx, m, modules):
     n = 0
     for mname in modules:
         mod = m.py(mname)
-        # pool-only workers: functions referenced only as first argument of <pool>.map
+        # a private helper that did not exist in the baseline and whose every call was expanded into its caller is analysed there (with the caller's
+        # sanitising statements in view), not as an entry point of its own
+        from ..inline import baseline
+        base = baseline().get(mname, set())
+        called = {(dotted(c_[1]) or '').split('.')[-1] for g_ in mod.funcs.values() for _s, c_ in calls_in(g_.body)}
         for q, f in sorted(mod.funcs.items()):
+            if q not in base and q.split('.')[-1].startswith('_') and not q.split('.')[-1].startswith('__') and q.split('.')[-1] not in called and base:
+                continue
             for s, call in calls_in(f.body):
                 d = dotted(call[1])
                 if not d or '.' not in d:
@@ -1105,8 +1202,11 @@ def _defs(f, nm, call_stmt, guards):
     paths = _block_paths(f)
     cpath = paths.get(id(call_stmt), ())
     defs = []
+    # program order, not source lines: statements of an expanded helper keep the helper's line numbers
+    order = {id(s_): k_ for k_, s_ in enumerate(walk_stmts(f.body))}
+    c_ord = order.get(id(call_stmt))
     for s in walk_stmts(f.body):
-        if s.line is not None and call_stmt.line is not None and s.line >= call_stmt.line:
+        if c_ord is not None and order[id(s)] >= c_ord:
             continue
         hit = False
         if s.k == 'assign':
@@ -1120,6 +1220,16 @@ def _defs(f, nm, call_stmt, guards):
             continue        # the definition sits under a guard that contradicts the call's guard
         defs.append(s)
     # kill: a def whose block is on the call's path (same block or ancestor) and that comes later than another def
+    stmt_at = {}
+
+    def index(stmts):
+        for i_, s_ in enumerate(stmts):
+            stmt_at[(id(stmts), i_)] = s_
+            for b_ in sub_blocks(s_):
+                index(b_)
+    index(f.body)
+    reassigned = assigned_vars(f.body)
+
     def dominates(d):
         dp = paths.get(id(d), ())
         if not dp:
@@ -1128,11 +1238,20 @@ def _defs(f, nm, call_stmt, guards):
         for (b, i) in cpath:
             if b == blk and idx < i:
                 return True
+        # a definition nested in `if` statements that precede the call in one of its enclosing blocks, under guards the call is under as well
+        # (`if flag: x = fix(x)` ... `if flag: use(x)`): every execution that reaches the call executed the definition
+        for depth, (b, i) in enumerate(dp[:-1]):
+            if any(b == cb and i < ci for (cb, ci) in cpath):
+                extra = len(dp) - depth - 1
+                top = stmt_at.get((b, i))
+                added = guards.get(id(d), frozenset()) - guards.get(id(top), frozenset())
+                if len(added) == extra and added <= cg and not ({n_ for n_, _p in added} & reassigned):
+                    return True
         return False
     doms = [d for d in defs if d.k == 'assign' and dominates(d)]
     if doms:
-        last = max(doms, key=lambda d: d.line or 0)
-        defs = [d for d in defs if (d.line or 0) >= (last.line or 0)]
+        last = max(doms, key=lambda d: order[id(d)])
+        defs = [d for d in defs if order[id(d)] >= order[id(last)]]
     return [d if d.k == 'assign' else S_foreach(d) for d in defs]
 
 
